@@ -58,7 +58,11 @@ func (packer *MessagePacker) ChunkAndWrite(writer io.Writer, csid int, typeid ui
 	if bodyLen <= LocalChunkSize {
 		// 如果一个chunk就够放（大部分信令都是这种情况），我们直接在buffer前面预留的空间写入chunk header内容，避免造成拷贝
 		writeSingleChunkHeader(packer.b.Bytes(), csid, bodyLen, typeid, streamid)
-		_, err := packer.b.WriteTo(writer)
+		// 注意，writer可能是异步发送的连接（比如play之后的ServerSession），只是把内存块放入发送队列就返回了。
+		// packer的buffer会被下一条信令复用，所以这里必须交出一份拷贝，否则排队中的信令会被后面的信令覆盖
+		out := append([]byte(nil), packer.b.Bytes()...)
+		packer.b.Reset()
+		_, err := writer.Write(out)
 		return err
 	}
 
